@@ -27,7 +27,7 @@ func init() {
 				k = 3
 			}
 			return evid.Spec{ID: "C05", Level: "model_checking", Exhaustive: true,
-				Rule: fmt.Sprintf("streams of 1-3 packets (body lengths from {0,1,5,83,95,96,107,108,300}, mixed types/sessions/versions; streams with a 65536-byte body, and streams whose first body is 5000 / 4097 (thorough: 8191, 20000, 33000) bytes with small packets behind it) delivered to the real server loop and to the real Client.Send "+
+				Rule: fmt.Sprintf("streams of 1-3 packets (body lengths from {0,1,5,83,95,96,107,108,300}, mixed types/sessions/versions; streams with a 65536-byte body, and streams whose first body is 5000 / 4097 (thorough: 8191, 20000, 33000) bytes with small packets behind it) delivered to the real server loop (also with the single-connect flag on every packet and a receiver that answers each one, for cut sets of size <= 1) and to the real Client.Send "+
 					"through a scripted connection whose every Read returns exactly one chunk; all cut sets of size <= %d (size-%d sets and the 64 KiB stream restricted to a +/-14 byte window around header/body boundaries), the two extreme "+
 					"segmentations, and every EOF / read-timeout position combined with <= 1 cut; oversize headers (65537, 2^31-1, 2^32-1) under every cut of the 12 header bytes. Oracle: the receiver sees exactly the sent "+
 					"(header, cleartext) sequence, nothing for an incomplete packet, an error and close on EOF/timeout mid-packet, refusal of an oversize announcement with no further Read and < 1 MiB allocated. "+
@@ -83,7 +83,8 @@ type c05Pkt struct {
 
 // c05Stream builds the packets of a stream from body lengths. client=false: requests (odd seq 1) for the
 // server; client=true: replies for Client.Send.
-func c05Stream(lens []int, client bool) (pk []c05Pkt, wire []byte) {
+func c05Stream(lens []int, client bool, sc ...bool) (pk []c05Pkt, wire []byte) {
+	single := len(sc) > 0 && sc[0]
 	for i, n := range lens {
 		typ := byte(1 + i%3)
 		ver := byte(0xc0 + i%2)
@@ -93,6 +94,9 @@ func c05Stream(lens []int, client bool) (pk []c05Pkt, wire []byte) {
 		}
 		if i == 2 {
 			h.Flags = 1 // one packet in the clear
+		}
+		if single {
+			h.Flags |= 4 // single-connect: the client multiplexes its sessions on this connection
 		}
 		clear := shapedBody(typ, n)
 		pk = append(pk, c05Pkt{H: h, Clear: clear})
@@ -108,17 +112,31 @@ type c05Case struct {
 	Fault  string `json:"fault,omitempty"` // "", eof, timeout
 	At     int    `json:"fault_at,omitempty"`
 	Over   uint32 `json:"oversize,omitempty"`
+	// SC: every packet carries the single-connect flag and the receiving handler answers each one (so that whatever
+	// the server does once a connection is in single-connect mode is in force while the rest of the stream arrives)
+	SC bool `json:"single_connect_replying,omitempty"`
 }
 
 // recorder handler for the server receiver
 type c05Rec struct {
-	mu   sync.Mutex
-	seen []tq.Request
+	mu    sync.Mutex
+	seen  []tq.Request
+	reply bool
 }
 
 func (r *c05Rec) Handle(resp tq.Response, req tq.Request) {
 	r.mu.Lock()
 	r.seen = append(r.seen, tq.Request{Header: req.Header, Body: append([]byte{}, req.Body...)})
+	reply := r.reply
+	r.mu.Unlock()
+	if reply {
+		resp.Reply(tq.NewAuthenReply(tq.SetAuthenReplyStatus(tq.AuthenStatusFail)))
+	}
+}
+
+func (r *c05Rec) setReply(v bool) {
+	r.mu.Lock()
+	r.reply = v
 	r.mu.Unlock()
 }
 
@@ -167,7 +185,9 @@ func c05Server(c *Ctx, w *srvx.World, rec *c05Rec, cs c05Case) {
 	fail := func(what string) {
 		c.R.ViolateMin("server/"+firstWord(what), fmt.Sprintf("server receiver: %s; case %+v", what, cs), cs, len(cs.Cuts)+1)
 	}
-	pk, wire := c05Stream(cs.Lens, false)
+	pk, wire := c05Stream(cs.Lens, false, cs.SC)
+	rec.setReply(cs.SC)
+	defer rec.setReply(false)
 	limit := len(wire)
 	if cs.Fault != "" {
 		limit = cs.At
@@ -219,7 +239,7 @@ func c05Server(c *Ctx, w *srvx.World, rec *c05Rec, cs c05Case) {
 	} else if closed {
 		fail("connection closed although every packet was well-formed")
 	}
-	if out := conn.Take(); len(out) != 0 {
+	if out := conn.Take(); len(out) != 0 && !cs.SC {
 		fail("bytes written although the handler never replies")
 	}
 	if !conn.Closed() {
@@ -403,6 +423,11 @@ func c05Run(c *Ctx) {
 			c.R.Distinct(evid.Hash(fmt.Sprint(cs.Lens), fmt.Sprint(cs.Cuts), cs.Fault, cs.At))
 		}
 		c05Server(c, w, rec, cs)
+		if len(cs.Cuts) <= 1 && cs.Fault == "" && len(cs.Lens) > 1 {
+			sc := cs
+			sc.SC = true
+			c05Server(c, w, rec, sc)
+		}
 		cc := cs
 		cc.Client = true
 		c05Client(c, cc)
